@@ -146,7 +146,7 @@ def run(ctx):
                 ts.setdefault(part, "[partial {{ 1 + 1 }}]")
                 ts[main] = ("{% include '" + part + "' without context %}|" + ts[main]
                             + "|{% import '" + part + "' as MM %}{{ MM }}|{% include '" + part + "' without context %}")
-            data = g.data()
+            data = g.data() if idx % 7 else {}
             case = {"templates": ts, "data": data, "index": idx, "autoescape": auto}
             w = oracle_entry_points(jinja2, ts, main, data, tmpdir, ctx, auto)
             if w == "skip":
@@ -175,13 +175,30 @@ def oracle_entry_points(jinja2, ts, main, data, tmpdir, ctx, autoescape=False):
             return "concatenation of generate() differs from render()"
         if "".join(t.stream(**data)) != ref:
             return "concatenation of stream() differs from render()"
-        for size in range(2, 9):
+        for size in list(range(2, 9)) + [50, 1000]:
             st = t.stream(**data)
             st.enable_buffering(size)
             chunks = list(st)
             w = oracle_chunks(size, pieces, chunks)
             if w:
                 return f"buffer size {size}: {w}"
+        # buffering switched on and off again; manual iteration with next()
+        st = t.stream(**data)
+        st.enable_buffering(3)
+        st.disable_buffering()
+        if list(st) != pieces:
+            return "stream after enable_buffering + disable_buffering does not yield the pieces"
+        st = t.stream(**data)
+        got = []
+        while True:
+            try:
+                got.append(next(st))
+            except StopIteration:
+                break
+        if got != pieces:
+            return "manual next() over the stream does not yield the pieces"
+        if not data and str(t.module) != ref:
+            return "str(template.module) differs from render() without data"
         p = os.path.join(tmpdir, "out.txt")
         st = t.stream(**data)
         st.enable_buffering(3)
